@@ -102,11 +102,44 @@ NestedCases(t, v) ==
        in |-> Frame(t, pos \o Cat(SubSeq(gs, 1, j)) \o x \o Cat(SubSeq(gs, j + 1, k))),
        base |-> Frame(t, pos \o Cat(gs))] : <<j, x>> \in {y \in (1..k) \X ins : isStruct(gs[y[1]].tag)}}
 
+\* a foreign group at the END of a nested container, with the parent's remaining groups behind the container: what the nested
+\* struct did not consume and what follows its container are both handed on - nothing behind the container may get lost
+NestedTailCases(t, v) ==
+  LET tg == TaggedOf(t)
+      gs == Groups(t, v)
+      pos == PosBytes(t, v)
+      k == Len(gs)
+      fieldOf(tag) == tg[CHOOSE i \in 1..Len(tg) : tg[i].tag = tag]
+      isStruct(tag) == fieldOf(tag).kind = "struct" /\ fieldOf(tag).card # "vec" /\ fieldOf(tag).len.s = "Tlv"
+      \* re-wrap group j with the foreign bytes appended inside its container
+      rewrap(j, x) == LET f == fieldOf(gs[j].tag)
+                          inner == EncStruct(f.sub, IF f.card = "req" THEN v[f.name] ELSE v[f.name][1]) \o x IN
+                      TagDefEnc(f.tag) \o LenEnc(f.len, Len(inner)) \o inner
+      ins == {<<158, 1, 7>>, <<31, 254, 0>>}
+  IN {[ty |-> t, cls |-> "nestedtail",
+       in |-> Frame(t, pos \o Cat(SubSeq(gs, 1, j - 1)) \o rewrap(j, x) \o Cat(SubSeq(gs, j + 1, k))),
+       base |-> Frame(t, pos \o Cat(gs))] : <<j, x>> \in {y \in (1..k) \X ins : isStruct(gs[y[1]].tag)}}
+
+\* the date / time group (TLV 1F0E / 1F0F inside one field): a repeated element is a duplicate naming that element
+DtDate == <<31, 14, 4, 32, 35, 17, 5>>
+DtTime == <<31, 15, 3, 18, 52, 86>>
+DtOrders == << [g |-> <<DtDate, DtTime, DtTime>>, tag |-> 7951], [g |-> <<DtTime, DtDate, DtTime>>, tag |-> 7951],
+               [g |-> <<DtTime, DtTime>>, tag |-> 7951], [g |-> <<DtDate, DtDate, DtTime>>, tag |-> 7950],
+               [g |-> <<DtDate, DtTime, DtDate>>, tag |-> 7950], [g |-> <<DtTime, DtDate, DtDate>>, tag |-> 7950] >>
+DtCases(t) ==
+  LET tg == TaggedOf(t)
+      idx == {i \in 1..Len(tg) : tg[i].kind = "datetime"} IN
+  UNION {{LET body == Flatten(DtOrders[o].g) IN
+          [ty |-> t, cls |-> "dup", tag |-> DtOrders[o].tag,
+           in |-> Frame(t, PosBytes(t, MinVal(t)) \o TagDefEnc(tg[i].tag) \o LenEnc(tg[i].len, Len(body)) \o body),
+           base |-> Frame(t, PosBytes(t, MinVal(t)))] : o \in 1..Len(DtOrders)} : i \in idx}
+
 \* ---- all cases, as one sequence per type (computed once) -------------------------------------
 SetSeq(S) == SetToSeq(S)
 C13Of(i) == LET t == Types[i]
                 bs == Bases(t) IN
-            Flatten([b \in 1..Len(bs) |-> IF Canonical(t, bs[b]) THEN SetSeq(CasesOf(t, bs[b]) \cup NestedCases(t, bs[b])) ELSE <<>>])
+            Flatten([b \in 1..Len(bs) |-> IF Canonical(t, bs[b]) THEN SetSeq(CasesOf(t, bs[b]) \cup NestedCases(t, bs[b]) \cup NestedTailCases(t, bs[b])) ELSE <<>>])
+            \o SetSeq(DtCases(t))
             \o (IF Len(TaggedOf(t)) > W /\ Canonical(t, TypVal(t)) THEN SetSeq(CasesOf(t, TypVal(t))) ELSE <<>>)
 C14Of(i) == LET t == Types[i]
                 vs == AllValues[i]
